@@ -145,10 +145,22 @@ def _work(job):
         else:
             v = v2
     res['verdict'] = v
+    # K2: stepwise correspondence of the Gallina engine model with the implementation on this property's slice
+    if getattr(prop, 'k2_mask', None) is not None and v[0] == 'A' and tr.exc is None:
+        import engine_k2
+        if engine_k2.in_scope(cfg):
+            k2 = engine_k2.check_trace(tr, _DRV, max_frames=getattr(prop, 'k2_frames', 60), mask=prop.k2_mask or None)
+            res['k2'] = {'frames': k2['frames'], 'other': k2['other']}
+            if k2['mismatch'] and 'soft' not in res:
+                res['soft'] = {'clause': 900, 'frame': k2['mismatch'].get('frame'), 'k2': k2['mismatch']}
     res['nontrivial'] = bool(prop.nontrivial(tr)) and len(tr.frames) >= prop.min_frames
     res['stats'] = prop.stats(tr)
     res['status'] = 'ok'
     bad = v[0] != 'A' or (tr.exc is not None and prop.exc_is_violation)
+    if 'soft' in res and res['soft'].get('clause') == 900:
+        res['soft']['cfg'] = cfg
+        res['soft']['finding'] = None
+        res['soft']['detail'] = res['soft'].get('k2')
     if bad and 'soft' in res:
         res['soft']['cfg'] = cfg
         res['soft']['finding'] = findings.match(prop.id, cfg, tr, v)
@@ -342,6 +354,7 @@ def run_check(pid, tier, seed, replay=None):
     kernel_cases = []
     violations = []
     known_hit = {}
+    k2tot = {'runs': 0, 'frames': 0, 'other_slices_diverged': 0}
     known_clauses = {}
     agg_stats = {}
     for r in results:
@@ -373,6 +386,10 @@ def run_check(pid, tier, seed, replay=None):
         cov['by_region'][reg] = cov['by_region'].get(reg, 0) + 1
         for k2, v2 in (r.get('stats') or {}).items():
             agg_stats[k2] = agg_stats.get(k2, 0) + v2
+        if r.get('k2'):
+            k2tot['runs'] += 1
+            k2tot['frames'] += r['k2']['frames']
+            k2tot['other_slices_diverged'] += r['k2']['other']
         if r.get('exc'):
             cov['impl_exceptions'] += 1
             k = '%s@%s' % (r['exc'][0], r['exc'][1])
@@ -432,7 +449,7 @@ def run_check(pid, tier, seed, replay=None):
     if softs and exit_code == 0:
         path = os.path.join(REPLAYS, '%s_%s_correspondence.json' % (pid, tier))
         s0 = softs[0]
-        json.dump({'property': pid, 'kind': 'correspondence', 'clause': s0['clause'], 'clause_text': prop.clause_text.get(s0['clause']),
+        json.dump({'property': pid, 'kind': 'correspondence', 'clause': s0['clause'], 'clause_text': prop.clause_text.get(s0['clause']) or ('K2: the Gallina engine model (coq/Engine) and the implementation disagree on this property\'s slice after one event' if s0['clause'] == 900 else None),
                    'frame': s0['frame'], 'cfg': s0['cfg'], 'detail': s0.get('detail'), 'cases_with_mechanism_divergence': len(softs),
                    'note': 'the mechanism clause (model/implementation correspondence) no longer checks; the property clauses held on '
                            'all %d generated runs including this one' % cov['evaluations'], 'job': {'prop': pid}},
@@ -454,7 +471,7 @@ def run_check(pid, tier, seed, replay=None):
                 'checker_cmd': pr.get('checker_cmd', ''), 'trusted_base': TRUSTED_BASE,
                 'axioms_reported_by_Print_Assumptions': pr.get('axioms', []),
                 'kernel_crosscheck': kc, 'known_findings_hit': known_hit, 'known_findings_clauses': known_clauses, 'mechanism_stats': agg_stats,
-                'proof_log': pr['log'], 'mechanism_divergences': cov_soft, 'violations_detail': [{k: v for k, v in x.items() if k != 'cfg'} for x in violations[:3]]})
+                'proof_log': pr['log'], 'mechanism_divergences': cov_soft, 'k2_engine_correspondence': k2tot, 'violations_detail': [{k: v for k, v in x.items() if k != 'cfg'} for x in violations[:3]]})
     if 'coqchk' in pr:
         cov['coqchk'] = pr['coqchk']
     if hasattr(prop, 'extra_coverage'):
